@@ -42,6 +42,18 @@ NOTES = {
  "C18-label-comment-indented-continuation": (True, ""),
  "C19-address-to-any-32-array": (True, ""),
  "C20-flatten-referer-wrong-index": (True, ""),
+ "C01-slot-assign-skips-one-pinned": (False, "C10 caught it at once; C01's programs had no requested slot ids: driver C-pinned (two live variables with adjacent requested ids beside every small control-flow recipe) added"),
+ "C02-v4-dig-cleanup-uses-caller-return": (True, ""),
+ "C03-abi-recursion-spill-counts-output": (False, "C02 caught it at once; C03 compared option settings only on recipe programs: the hand-written ABI-subroutine programs of gen_abisub are now compared across all option settings too"),
+ "C04-flatten-reference-count-true-twice": (True, ""),
+ "C05-flatten-drops-bnz-same-target": (True, ""),
+ "C06-string-literal-prefix-divmod-255": (True, "(caught because 300-byte strings had been added after round 1)"),
+ "C07-namedtuple-field-index-shared": (False, "all named tuples used f0..fn in order: a decoy NamedTuple class with the same names at rotated positions is instantiated before / after the type under test"),
+ "C08-method-signature-cached": (False, "every handler object was registered once: family (e) explores every history <= 3 of {query signature, register in router A/B under own/overriding name} on one shared handler object"),
+ "C09-selector-collision-guard-keyed-by-signature": (False, "no two methods with colliding selectors: C08 family (f) computes a colliding pair (first collision of c0, c1, ...) and requires the second registration to be refused; C09 gained naming cases (overriding name, parameter names) which exposed two genuine contract defects, repaired in /repo"),
+ "C10-frame-local-limit-ignores-output-cell": (False, "ABI locals were only placed in plain subroutines: placement 'abisub' (ABI-returning subroutine, output cell in the frame) added"),
+ "C11-compilation-object-keeps-graphs": (False, "repeat probes used compileTeal (a fresh Compilation each time): probe same_expr_one_compilation_object calls compile() three times on one object"),
+ "C12-extractors-share-literal-cache": (False, "C13 caught it at once; C12's alphabet had no two constants of different kinds with the same text: Bytes('f()void'), Bytes(<address text>), Bytes('0x61'), Bytes('TMPL_B') added"),
  "C20-normalize-structural-in": (False, "recipes never used one Expr object twice; 'share' build mode added (C20, C01)"),
 }
 for name, (caught, note) in NOTES.items():
